@@ -124,7 +124,8 @@ def build(cell):
     if layout == "absent":
         kw["expected_groups"] = np.array([100, 101])
     elif need_expected:
-        kw["expected_groups"] = np.concatenate([present, [99]]) if cell["expected"] else present
+        # requested but absent labels: one in the middle of the range (an "empty bin") and one beyond it
+        kw["expected_groups"] = np.sort(np.concatenate([present, [4, 99]])) if cell["expected"] else present
     if "expected_groups" in kw or partial:
         kw["fill_value"] = -1 if func in ARG_FUNCS else (0 if func == "any" else -1.0)
         if cell.get("fill") == "nan" and func != "any":
